@@ -45,7 +45,7 @@ LeavesOf(fam) ==
     [] fam = "tpl"    -> {Tpl(<<TpLit("x"), TpNum>>), Tpl(<<TpStr, TpLit("-"), TpStr>>), Tpl(<<TpBool>>),
                           Tpl(<<TpLit("a"), TpOne(<<"b", "bc">>)>>), Tpl(<<TpNum, TpLit("px")>>),
                           Tpl(<<TpLit("a."), TpStr>>), Tpl(<<TpStr>>), Tpl(<<TpOne(<<"a", "ab">>), TpLit("c")>>)}
-    [] fam = "nonjson" -> {Prim("Date"), Prim("bigint"), TaT("Uint8Array"), TaT("Float64Array"), TString, TNumber,
+    [] fam = "nonjson" -> {Prim("Date"), Prim("bigint"), TaT("Uint8Array"), TaT("Float64Array"), TString, TNumber, Prim("function"),
                            \* leaves kept by several members of a non-discriminated union (parse merges the members' results)
                            Uni(<<Obj(<<Prop("m", MapT(TString, TNumber), FALSE), Prop("a", TString, FALSE)>>, <<>>),
                                  Obj(<<Prop("m", MapT(TString, TNumber), FALSE)>>, <<>>)>>),
@@ -76,6 +76,12 @@ LeavesOf(fam) ==
                           Uni(<<Obj(<<Prop("kind", LS("text"), FALSE), Prop("format", LS("plain"), FALSE), Prop("a", TString, FALSE)>>, <<>>),
                                 Obj(<<Prop("kind", LS("text"), FALSE), Prop("format", LS("html"), FALSE), Prop("b", TNumber, FALSE)>>, <<>>),
                                 Obj(<<Prop("kind", LS("img"), FALSE), Prop("c", TString, FALSE)>>, <<>>)>>),
+                          \* two unions whose 32-bit hash() is equal (the property names "Aa" and "BB" have one string hash): the names of
+                          \* their variants' definitions in a printing context must still be different
+                          Obj(<<Prop("u1", Uni(<<Obj(<<Prop("kind", LS("x"), FALSE), Prop("Aa", TString, FALSE)>>, <<>>),
+                                                 Obj(<<Prop("kind", LS("y"), FALSE), Prop("b", TNumber, FALSE)>>, <<>>)>>), FALSE),
+                                Prop("u2", Uni(<<Obj(<<Prop("kind", LS("x"), FALSE), Prop("BB", TString, FALSE)>>, <<>>),
+                                                 Obj(<<Prop("kind", LS("y"), FALSE), Prop("b", TNumber, FALSE)>>, <<>>)>>), FALSE)>>, <<>>),
                           \* named intersection members that declare the same property with types differing only in depth
                           Inter(<<Ref("Ma"), Ref("Mb")>>), Inter(<<Ref("Mb"), Ref("Ma")>>),
                           \* (members are emitted in the order of their names: here the wider declaration comes first)
